@@ -132,6 +132,21 @@ def generate(rng, tier):
         elif k < 0.88: ev = ["F"]; fam = "writefault"; exp = "SKIP" if (not isq and nm.upper() in ("R", "RB", "BL")) else "FAIL"
         else: ev = ["E", ("L", " " + reply + "  ")]; fam = "padded-reply"
         add([call, ("status",)], [ev, S.nominal(("status",), rng)], "grammar/%s/%s" % ("query" if isq else "command", fam), [exp, "SKIP"])
+    # request texts that a formatting layer could mistake for a template (braces, percent signs), each with every kind of bad outcome:
+    # whatever is done with the text on the way to the error message, the request fails in the documented way and nothing is raised
+    for text, isq in [("ST,{AxiDraw}", False), ("SM,{0},1", False), ("ST,100%d", False), ("SL,{", False), ("ST,50% speed", False), ("ST,%s%s", False), ("ST,%(x)s", False),
+                      ("QL,{0}", True), ("QT{}", True), ("Q%s", True), ("QL,%d", True), ("QT%", True)]:
+        call = ("query" if isq else "command", text)
+        nm = text[0] if (len(text) == 1 or text[1] == ",") else text[:2]
+        for fam, ev, exp in [("errline", ["E", ("L", "!8 Err: unknown")], "FAIL"), ("nameerr", ["E", ("L", nm + ",Err: 3")], "FAIL"), ("wrongname", ["E", ("L", "ZZ,1")], "FAIL"),
+                             ("silence", ["E"] + ["E"] * 27, "FAIL"), ("readfault", ["E", "F"], "FAIL"), ("writefault", ["F"], "FAIL"), ("clean", ["E", ("L", nm + (",7" if isq else ""))], "SKIP")]:
+            add([call, ("status",)], [ev, S.nominal(("status",), rng)], "template-like-text/%s/%s" % ("query" if isq else "command", fam), [exp, "SKIP"])
+    for nick in ["Plotter 50% speed", "{0}", "100%", "%s", "a{b}c"]:
+        nomn = S.nominal(("write_nick", nick), rng)
+        for i in range(len(nomn)):
+            if isinstance(nomn[i], tuple):
+                for repl in ([("L", "!8 Err: unknown")], [("L", "ZZ,1")], ["F"]):
+                    add([("write_nick", nick), ("status",)], [nomn[:i] + repl + nomn[i + 1:], S.nominal(("status",), rng)], "template-like-text/write_nick", None)
     # a port whose close() would fail (unplugged device: pyserial's exception or a plain OSError): a request that meets an I/O fault must
     # still come back with its failure value, whatever it does about the dead port
     for c in cases:
